@@ -54,9 +54,10 @@ def diagnostics_publishers(ctx):
 
 
 def unused_list_fns(ctx):
-    """the database query behind `fixtures unused`: a FixtureDatabase method without parameters returning Vec<(PathBuf, String)>"""
+    """the database queries behind `fixtures unused`: methods returning Vec<(PathBuf, String)> -- (file, fixture name) pairs;
+    a filtered variant that takes parameters is one of them"""
     def build():
-        return {f.id for f in ctx.bin.real_fns() if f.kind == "method" and f.argc == 1
+        return {f.id for f in ctx.bin.real_fns() if f.kind == "method" and f.argc >= 1
                 and f.ret == "std::vec::Vec<(std::path::PathBuf, std::string::String)>"}
     return ctx.memo("role:unused", build)
 
